@@ -196,21 +196,22 @@ def parseUint (s : Bytes) (base : Int) (bits : Nat) : Except NumErr Nat :=
     | _ => go 10 true s
   else .error (.base base)
 
+/-- "Pick off leading sign": (negative?, the rest) -/
+def splitSign : Bytes → Bool × Bytes
+  | 0x2D :: r => (true, r)
+  | 0x2B :: r => (false, r)
+  | s => (false, s)
+
 /-- `strconv.ParseInt(s, base, bits)`. -/
 def parseInt (s : Bytes) (base : Int) (bits : Nat) : Except NumErr Int :=
-  match s with
-  | [] => .error .syntax
-  | c :: r =>
-    let neg := c = 0x2D
-    let body := if c = 0x2B || c = 0x2D then r else s
-    match parseUint body base bits with
-    | .error .range => .error .range
-    | .error e => .error e
-    | .ok un =>
-      let cutoff := 2 ^ (bits - 1)
-      if !neg && un ≥ cutoff then .error .range
-      else if neg && un > cutoff then .error .range
-      else .ok (if neg then -(un : Int) else (un : Int))
+  if s = [] then .error .syntax else
+  match parseUint (splitSign s).2 base bits with
+  | .error e => .error e
+  | .ok un =>
+    let cutoff := 2 ^ (bits - 1)
+    if !(splitSign s).1 && un ≥ cutoff then .error .range
+    else if (splitSign s).1 && un > cutoff then .error .range
+    else .ok (if (splitSign s).1 then -(un : Int) else (un : Int))
 
 def NumErr.text : NumErr → Bytes
   | .syntax => B "invalid syntax"
